@@ -46,6 +46,71 @@ def binom : Nat → Nat → Nat
   | 0, _+1 => 0
   | n+1, k+1 => binom n k + binom n (k+1)
 
+/-! The Pascal recursion above is the specification; the compiled driver evaluates it row by row
+(`binom_eq_binomFast` is a proved `@[csimp]` equation, no axiom, so `#eval`/`drv` and the theorems
+speak about the same function). -/
+
+def pascalNext (r : List Nat) : List Nat := List.zipWith (· + ·) (0 :: r) (r ++ [0])
+
+def pascalRow : Nat → List Nat
+  | 0 => [1]
+  | n+1 => pascalNext (pascalRow n)
+
+def binomFast (n k : Nat) : Nat := (pascalRow n)[k]?.getD 0
+
+theorem pascalRow_length (n : Nat) : (pascalRow n).length = n + 1 := by
+  induction n with
+  | zero => rfl
+  | succ n ih => simp [pascalRow, pascalNext, ih]
+
+theorem binom_eq_zero : ∀ (n k : Nat), n < k → binom n k = 0
+  | _, 0, h => by omega
+  | 0, _+1, _ => rfl
+  | n+1, k+1, h => by
+    rw [binom, binom_eq_zero n k (by omega), binom_eq_zero n (k+1) (by omega)]
+
+theorem pascalRow_get (n : Nat) : ∀ k, (pascalRow n)[k]?.getD 0 = binom n k := by
+  induction n with
+  | zero =>
+    intro k
+    cases k with
+    | zero => rfl
+    | succ k => simp [pascalRow, binom]
+  | succ n ih =>
+    intro k
+    have hl := pascalRow_length n
+    cases k with
+    | zero =>
+      have h0 := ih 0
+      simp only [pascalRow, pascalNext, binom]
+      cases hr : pascalRow n with
+      | nil => rw [hr] at hl; simp at hl
+      | cons a r => rw [hr] at h0; simp [binom] at h0; simp [h0]
+    | succ k =>
+      simp only [pascalRow, pascalNext, binom]
+      rw [← ih k, ← ih (k + 1)]
+      rw [List.getElem?_zipWith]
+      simp only [List.getElem?_cons_succ]
+      by_cases hk : k + 1 < (pascalRow n).length
+      · have h1 : k < (pascalRow n).length := by omega
+        rw [List.getElem?_append_left hk]
+        rw [List.getElem?_eq_getElem h1, List.getElem?_eq_getElem hk]
+        simp
+      · by_cases hk2 : k < (pascalRow n).length
+        · have : k + 1 = (pascalRow n).length := by omega
+          rw [List.getElem?_eq_getElem hk2]
+          rw [List.getElem?_append_right (by omega)]
+          rw [List.getElem?_eq_none (l := pascalRow n) (by omega)]
+          simp [this]
+        · rw [List.getElem?_eq_none (l := pascalRow n) (i := k) (by omega)]
+          rw [List.getElem?_eq_none (l := pascalRow n) (i := k + 1) (by omega)]
+          simp
+
+@[csimp] theorem binom_eq_binomFast : @binom = @binomFast := by
+  funext n k
+  exact (pascalRow_get n k).symm
+
+
 def beta (x y : Nat) : Nat := binom (x + y) y
 
 /-! ## `get_opt_0_table` (revolve.py:16-58): `opt0 m l`, rows `m = 0 … mmax`, `l = 0 … lmax` -/
